@@ -41,6 +41,11 @@ SPEC = {
                  "C04_wrapper_trace", "C04_debug_reports", "C04_flush_follows_mutation", "C04_trace_tables_agree", "C04_fault_free_is_model",
                  "C04_flush_error_surfaces", "C04_copy_stops_at_first_error", "C04_private_inv_reachable",
                  "C04_caller_writes_do_not_reach_the_store", "C04_set_stores_a_copy", "C04_get_returns_a_private_copy", "C04_iterate_hands_out_copies", "C04_commit_stores_copies",
+                 "C04_mem_inv_reachable", "C04_store_never_writes_existing_buffers", "C04_private_buffers_are_frozen",
+                 "C04_mem_caller_writes_do_not_reach_the_store", "C04_mem_keyed_calls_read_their_buffers_at_call_time",
+                 "C04_mem_get_returns_a_private_copy", "C04_extended_realm_is_a_private_copy", "C04_withRealm_keeps_the_callers_slice",
+                 "C04_batch_keeps_private_key_copies", "C04_mem_commit_stores_copies", "C04_iterate_keys_hands_out_copies",
+                 "C04_iterate_hands_out_key_and_value_copies",
                  "C04_calls_mapdb", "C04_calls_flushkv", "C04_calls_debug", "C04_calls_kvstore_utils", "C04_skeleton_types"],
     "trusted_base": [
         "hand-written model Hive/Model/KV.lean of kvstore/mapdb (+ flushkv, debug wrappers), tied to the working tree by "
